@@ -228,14 +228,23 @@ def run(prop, tier):
                     if tier == "quick":
                         otabs = otabs[:1] + otabs[1::3]
                     for ot in otabs:
-                        jobs.append((combo, looms, ot))
+                        jobs.append((combo, looms, ot, False))
+                        first = min(c[0] + (ot or {}).get(host_of(looms[i]), 0) for i, c in enumerate(combo))
+                        if first <= 0 and S <= 2:
+                            # raw clocks stay >= 0 when shifted by -first
+                            jobs.append((combo, looms, ot, True))
 
         def one_emu(j):
-            combo, looms, ot = j
+            combo, looms, ot, zero = j
             td = os.path.join(base, "e%d" % os.getpid())
             # clocks are shifted by 1000 so that corrected clocks stay positive (a negative corrected
             # first clock is refused by the emulator; outside the quantified space, see DESIGN.md)
-            st = [(looms[i], 10 + i, 100 + i, life([1000 + x for x in c], 100 + i)) for i, c in enumerate(combo)]
+            shift = 1000
+            if zero:
+                # the first corrected clock is exactly 0 (a legal time origin)
+                first = min(c[0] + (ot or {}).get(host_of(looms[i]), 0) for i, c in enumerate(combo))
+                shift = -first
+            st = [(looms[i], 10 + i, 100 + i, life([shift + x for x in c], 100 + i)) for i, c in enumerate(combo)]
             # alternate between the default file name and -c
             use_c = (len(combo) + len(combo[0])) % 2 == 1 and ot is not None
             write_trace(td, st, offsets=ot, offsets_name="offs.txt" if use_c else "clock-offsets.txt")
@@ -248,22 +257,28 @@ def run(prop, tier):
         for j, msg in zip(jobs, pmap(one_emu, jobs)):
             ctx.add(evaluations=1, transitions=sum(len(c) for c in j[0]), traces_validated_against_impl=1)
             if msg:
-                ctx.violation("ovniemu streams %r looms %r offsets %r: %s" % (j[0], j[1], j[2], msg),
-                              {"engine": "E6 ovniemu", "streams": [list(c) for c in j[0]], "looms": list(j[1]), "offsets": j[2]},
+                ctx.violation("ovniemu streams %r looms %r offsets %r%s: %s" % (j[0], j[1], j[2], " (first corrected clock 0)" if j[3] else "", msg),
+                              {"engine": "E6 ovniemu", "streams": [list(c) for c in j[0]], "looms": list(j[1]), "offsets": j[2], "first_corrected_clock_zero": j[3]},
                               {"kind": "emu-offsets"})
         ctx.add(states=len(jobs))
         ctx.part("ovniemu-offsets", cases=len(jobs), loom_layouts=layouts)
 
         # ---- (d) directory creation order
         jobs = []
-        for combo in itertools.product([(0, 1), (1, 1), (0, 0)], repeat=3):
-            jobs.append(combo)
+        for fam in (0, 1):
+            for combo in itertools.product([(0, 1), (1, 1), (0, 0)], repeat=3):
+                jobs.append((fam, combo))
 
-        def one_perm(combo):
+        def one_perm(j):
+            fam, combo = j
             outs = set()
             for order in itertools.permutations(range(3)):
                 td = os.path.join(base, "p%d" % os.getpid())
-                st = [(("B", "A", "B")[i], 10 + i, 100 + (7 * i) % 3, life([1000 + x for x in c], 100 + (7 * i) % 3)) for i, c in enumerate(combo)]
+                if fam == 0:
+                    st = [(("B", "A", "B")[i], 10 + i, 100 + (7 * i) % 3, life([1000 + x for x in c], 100 + (7 * i) % 3)) for i, c in enumerate(combo)]
+                else:
+                    # the same pid and tid in two looms (containers, several nodes): only the loom tells the streams apart
+                    st = [(("A", "B", "B")[i], (10, 10, 11)[i], 100, life([1000 + x for x in c], 100)) for i, c in enumerate(combo)]
                 write_trace(td, st, order=list(order))
                 rc, out, err = emusrv.run_tool(emu, [td])
                 blob = [rc]
@@ -272,17 +287,18 @@ def run(prop, tier):
                     blob.append(open(p).read() if os.path.exists(p) else None)
                 outs.add(json.dumps(blob))
             return len(outs)
-        for combo, n in zip(jobs, pmap(one_perm, jobs)):
+        for (fam, combo), n in zip(jobs, pmap(one_perm, jobs)):
             ctx.add(evaluations=6, transitions=6, traces_validated_against_impl=6)
             if n != 1:
-                ctx.violation("output depends on the creation order of the stream directories for streams %r (%d distinct outputs)" % (combo, n),
-                              {"engine": "E6 ovniemu", "streams": [list(c) for c in combo], "check": "creation-order"}, {"kind": "dir-order"})
+                ctx.violation("output depends on the creation order of the stream directories for streams %r%s (%d distinct outputs)" % (
+                    combo, " (same pid/tid in two looms)" if fam else "", n),
+                    {"engine": "E6 ovniemu", "streams": [list(c) for c in combo], "check": "creation-order", "family": fam}, {"kind": "dir-order"})
         ctx.part("creation-order", contents=len(jobs), orders_each=6)
         ctx.sample({"ovnidump_streams": [[0, 1], [1, BIG], []]})
         ctx.sample({"ovniemu": {"streams": [[0, 1, 5], [1, BIG]], "looms": ["node.1", "node.2"], "offsets": {"node": 3}}})
         ctx.cov["rule"] = ("heap: every sequence of insert(0..2)/pop up to length 9/11; ovnidump: every set of <= 3 streams of <= 2/3 events with clocks in "
                            "{0,1,(5),3e9+1} plus 4-7 streams of tiny shapes; ovniemu: thread life-cycles on <= 3 streams x loom/host layouts (incl. two looms "
-                           "of one host) x every non-trivial offset vector over {-2,0,3}; all 6 creation orders of 27 three-stream traces")
+                           "of one host) x every non-trivial offset vector over {-2,0,3}; the same with the first corrected clock exactly 0; all 6 creation orders of 2 x 27 three-stream traces (distinct pid/tid; the same pid/tid in two looms)")
         ctx.cov["distinct_nontrivial"] = ctx.cov["states"]
         ctx.assumptions += ["<= 7 streams; offsets far from int64 overflow; equal corrected clocks across streams may be replayed in any order"]
         return ctx.finish()
